@@ -28,6 +28,12 @@ CHECKS = {
  "C06": dict(engine="crashsim", cat="exploration", ref="DESIGN.md §6 C06",
    text="Invariant monitored on every pwrite of every seeded history: the written page range must not intersect the page sets of the newest committed version, of any open reader's version, or the newest meta slot.",
    tech="deterministic simulation: I/O interposition monitor over seeded histories with held readers"),
+ "C08": dict(engine="faultsim", cat="fault_enumeration", ref="DESIGN.md §6 C08",
+   text="For a chosen commit of each seeded history every I/O call it issues is made to fail once (all positions and kinds in thorough, a sample incl. meta write and final sync in quick), with and without readers held across the failure; afterwards in-process state, readers, accounting, the next writer and the reopened state are checked. Histories are sampled.",
+   tech="deterministic simulation with fault injection: k-th I/O call of a commit fails (EIO/ENOSPC/short write) through the I/O hooks"),
+ "C18": dict(engine="sizesim", cat="exploration", ref="DESIGN.md §6 C18",
+   text="Seeded growing workloads under MaxSize values drawn around every alignment boundary; file length monitored at every ftruncate/pwrite and after every step; failing transactions must fail with the size-limit error and leave state intact.",
+   tech="deterministic simulation: I/O interposition length monitor over seeded growing workloads x limit/map-size/alloc-size configurations"),
 }
 
 NA_PENDING = {}
@@ -48,6 +54,8 @@ m = {
  },
  "engines": [
    {"name":"crashsim","path":"props/crashsim.go","serves_properties":["C01","C06"],"kind_free_text":"record-once history over the shadow disk, crash-state construction, real recovery; pwrite monitor"},
+   {"name":"faultsim","path":"props/faultsim.go","serves_properties":["C08"],"kind_free_text":"k-th I/O call of a commit fails; state, readers, next writer and reopen checked"},
+   {"name":"sizesim","path":"props/sizesim.go","serves_properties":["C18"],"kind_free_text":"growing workloads under MaxSize with a file-length monitor on the I/O hooks"},
    {"name":"modelsim","path":"props/modelsim.go","serves_properties":["C04","C05","C07","C12"],"kind_free_text":"fault-free single-task arm of the simulator: seeded programs, reference model, independent decoder"},
  ],
  "checks": [],
